@@ -262,29 +262,64 @@ pub open spec fn file_ok(t: Seq<LexedToken>, upto: int, lines: int) -> bool {
 	&&& forall|k: int| 0 <= k < t.len() ==> (#[trigger] t[k]).location.span.start <= t[k].location.span.end <= upto && 1 <= t[k].location.line_number <= (if lines >= 1 { lines } else { 1 })
 	&&& forall|j: int, k: int| 0 <= j < k < t.len() ==> (#[trigger] t[j]).location.span.end <= (#[trigger] t[k]).location.span.start && t[j].location.line_number <= t[k].location.line_number
 }
-proof fn lemma_file_step(t0: Seq<LexedToken>, t: Seq<LexedToken>, off: int, i: int, len: int)
-	requires file_ok(t0, off, i), toks_ok(t, t0, off, (1 + i) as usize, off + len), 0 <= i, 1 + i <= usize::MAX, 0 <= len,
-	ensures file_ok(t, off + len + 1, i + 1),
+proof fn lemma_file_step(t0: Seq<LexedToken>, t: Seq<LexedToken>, off: int, i: int, len: int, adv: int)
+	requires file_ok(t0, off, i), toks_ok(t, t0, off, (1 + i) as usize, off + len), 0 <= i, 1 + i <= usize::MAX, 0 <= len <= adv,
+	ensures file_ok(t, off + adv, i + 1),
 {
 	assert forall|k: int| 0 <= k < t0.len() implies #[trigger] t[k] == t0[k] by {
 		assert(t.subrange(0, t0.len() as int)[k] == t[k]);
 	}
 }
-proof fn lemma_sumlen_mono(lines: Seq<&str>, a: int, b: int)
-	requires 0 <= a <= b
-	ensures sumlen(lines, a) <= sumlen(lines, b)
-	decreases b - a
-{
-	if a < b { lemma_sumlen_mono(lines, a, b - 1); }
+// ---- the lines of the file: pieces of split_inclusive('\n') (model in prelude/lexa_std.rs) ----
+// what strip_line_terminator must return: the piece without its "\n" or "\r\n"
+pub open spec fn stripped(s: Seq<char>) -> Seq<char> {
+	if s.len() >= 1 && s.last() == '\n' {
+		let t = s.drop_last();
+		if t.len() >= 1 && t.last() == '\r' { t.drop_last() } else { t }
+	} else { s }
 }
-proof fn lemma_sumlen_ge(lines: Seq<&str>, n: int)
-	requires 0 <= n
-	ensures sumlen(lines, n) >= n
+pub open spec fn catlen(p: Seq<&str>, n: int) -> int
 	decreases n
 {
-	if n > 0 { lemma_sumlen_ge(lines, n - 1); }
+	if n <= 0 { 0 } else { catlen(p, n - 1) + p[n - 1]@.len() }
 }
-
+proof fn lemma_cat_len(p: Seq<&str>, n: int)
+	requires 0 <= n <= p.len()
+	ensures cat(p, n).len() == catlen(p, n)
+	decreases n
+{
+	if n > 0 { lemma_cat_len(p, n - 1); }
+}
+proof fn lemma_catlen_mono(p: Seq<&str>, a: int, b: int)
+	requires 0 <= a <= b <= p.len()
+	ensures catlen(p, a) <= catlen(p, b)
+	decreases b - a
+{
+	if a < b { lemma_catlen_mono(p, a, b - 1); }
+}
+proof fn lemma_catlen_ge(p: Seq<&str>, n: int)
+	requires 0 <= n <= p.len(), forall|i: int| 0 <= i < p.len() ==> (#[trigger] p[i])@.len() >= 1
+	ensures catlen(p, n) >= n
+	decreases n
+{
+	if n > 0 { lemma_catlen_ge(p, n - 1); }
+}
+// piece i is the source text at its offset: the offset the lexer keeps is the true character index
+proof fn lemma_piece_at(p: Seq<&str>, n: int, i: int)
+	requires 0 <= i < n <= p.len()
+	ensures cat(p, n).subrange(catlen(p, i), catlen(p, i) + p[i]@.len()) =~= p[i]@, catlen(p, i) + p[i]@.len() <= cat(p, n).len(),
+	decreases n
+{
+	lemma_cat_len(p, n); lemma_cat_len(p, n - 1); lemma_cat_len(p, i);
+	if i == n - 1 {
+		assert(cat(p, n) =~= cat(p, n - 1) + p[n - 1]@);
+	} else {
+		lemma_piece_at(p, n - 1, i);
+		lemma_catlen_mono(p, i + 1, n - 1);
+		assert(cat(p, n) =~= cat(p, n - 1) + p[n - 1]@);
+		assert(cat(p, n).subrange(catlen(p, i), catlen(p, i) + p[i]@.len()) =~= cat(p, n - 1).subrange(catlen(p, i), catlen(p, i) + p[i]@.len()));
+	}
+}
 // ---- C14: words: [a-zA-Z_][a-zA-Z0-9_]* is a reserved word, the placeholder `_`, a builtin (followed by `!`) or an identifier ----
 // the 34 reserved words and `_` (README/features: fn var const if goto loop else cast as true false, the primitive type names,
 // import pub extern struct word8..word128)
